@@ -43,6 +43,13 @@ CHECKS = {
         note="Relative to the abstract Storage contract (CSVStorage.__len__ counting physical lines is design-time defect #13, not yet triaged by this check). Stand-in bound: see evidence.coverage.bounded.",
         design_ref="DESIGN.md 5 (C07), 12.4",
     ),
+    "C09": dict(
+        category="proof",
+        technique="contract-based deductive verification (pyvc): every constructor of the query DSL and both __call__ methods against the documented meaning, closures verified over their captured variables, path walk by loop invariant + induction lemma; exhaustive bounded stand-in alongside",
+        text="For every constructor of BaseQuery/TagQuery/FieldQuery/MeasurementQuery/TimeQuery (six comparisons, test, matches, search, exists, noop, map, key access) the resulting query is proved to evaluate, on every point, to the documented meaning: the path resolves on the addressed attribute (a missing key or an unsubscriptable value makes it False, not an error), the comparison is defined and true (operator exceptions swallowed), regex tests are False on non-strings and match the whole value (matches) or a substring (search); SimpleQuery.__call__ and CompoundQuery.__call__ are proved to compute that meaning and exactly boolean NOT/AND/OR; evaluation never raises unless a user test/map function does. All nesting depths by structural induction (a callee's contract is used for operands).",
+        note="Relative to the model of Python values and operators in contracts/query_model.py (uninterpreted operators that may raise, dict/str/None subscripting rules, re.* as uninterpreted predicates), structural equality of tuples, pyvc's encoding, z3/cvc5.",
+        design_ref="DESIGN.md 5 (C09), 12",
+    ),
     "C10": dict(
         category="proof",
         technique="contract-based deductive verification (pyvc): each Measurement forwarder is verified against the callee's contract with measurement = self._name (arguments bound to the callee's real signature); remaining forwarders by bounded stand-in",
@@ -56,6 +63,13 @@ CHECKS = {
         text="For the insert path: a non-Point at any position raises TypeError with storage = old contents + the normalised points before it and the database invariant intact (index extended, invalidated, or - after fix aeabb02 - invalidated on the abort). For the update path: ill-typed static arguments are rejected before any effect (interface contract), and an exception from the per-point update at any selected position leaves primary storage and index untouched with the temporary storage discarded (after fix f45b108). Proved for all positions of the offending element (arbitrary loop iteration), both index and scan branches.",
         note="Relative to: interface contract of _generate_updater/perform_update, abstract Storage contract (non-aliasing: KF-18 records MemoryStorage's in-place mutation as a known finding, witnessed by the stand-in), pyvc's encoding, z3/cvc5. remove()/select() raising paths: only can_read/can_write gates are modelled.",
         design_ref="DESIGN.md 5 (C11), 12",
+    ),
+    "C17": dict(
+        category="proof",
+        technique="contract-based deductive verification (pyvc): hash-determines-meaning invariant (`hash_faithful`) established by every constructor and preserved by &, |, ~; __eq__/__hash__ against it; exhaustive pairwise bounded stand-in alongside",
+        text="Each constructor is proved to return a query whose (truthy) hash value determines its meaning on every point (a spec function of the hash alone equals the query's meaning); &, | and ~ of both query classes are proved to build the same hash for either operand order and class (unordered pair under one tag) and to preserve the invariant; __eq__ is proved true only for equal truthy hashes, hence equal queries evaluate identically and hash equal; map() is proved to clear the hash for good and unhashable queries to equal nothing.",
+        note="Relative to structural equality/hashing of Python tuples and frozensets (injective constructors, symmetric unordered pair), the value model of C09, pyvc's encoding, z3/cvc5.",
+        design_ref="DESIGN.md 5 (C17), 12",
     ),
 }
 NOT_APPLICABLE = {p: WIP for p in ["C%02d" % i for i in range(1, 18)] if p not in CHECKS}
